@@ -200,6 +200,8 @@ def run_history(pid, history, meta):
     d = difference(oi, om, spec)
     tr = oracles.make_trace(oi, history)
     tr.quiesced = bool(meta.get("quiesce"))
+    tr.obs = oi
+    meta = dict(meta, _history=history)
     findings = [f.as_dict() for f in run_oracles(pid, tr, meta)]
     stats = trace_stats(tr, history)
     stats["notes"] = {k: v for k, v in oi["notes"].items() if k != "draw_ranges"}
@@ -238,7 +240,8 @@ def _worker(args):
     import gen
     from props import special_history
     try:
-        meta = {"profile": profile_name, "seed": seed, "mode": profile.get("_mode", {}), "quiesce": profile.get("quiesce", False)}
+        meta = {"profile": profile_name, "seed": seed, "mode": profile.get("_mode", {}), "quiesce": profile.get("quiesce", False),
+                "tier": os.environ.get("VERIF_TIER_EFFECTIVE", "quick")}
         if profile.get("_special"):
             history, meta2 = special_history(pid, profile, seed)
             meta.update(meta2)
@@ -300,6 +303,7 @@ def main():
     if pid not in PROPS:
         print("unknown property", pid); sys.exit(2)
     tier = a.tier if a.tier in ("quick", "thorough") else "quick"
+    os.environ["VERIF_TIER_EFFECTIVE"] = tier
     seed = int(os.environ.get("VERIF_SEED", "1"))
     t0 = time.time()
     spec = PROPS[pid]
@@ -350,14 +354,14 @@ def main():
         kf = load_known()
         jobs = []
         for ent in kf["findings"]:
-            if pid in ent.get("properties", []) and ent.get("replay"):
+            if pid in ent.get("properties", []) and ent.get("replay") and ent.get("status") == "known":
                 jobs.append(("known", ent))
         corpus_dir = os.path.join(VERIF, "corpus")
         corpus = sorted(f for f in os.listdir(corpus_dir) if f.endswith(".json")) if os.path.isdir(corpus_dir) else []
         ncorpus = 0
         for ent_kind, ent in jobs:
             h = json.load(open(os.path.join(VERIF, ent["replay"])))
-            r = run_history(pid, h["history"], h.get("meta", {}))
+            r = run_history(pid, h["history"], dict(h.get("meta", {}), tier="thorough"))
             tagged = [f for f in r["findings"] if f["known"] == ent["id"]]
             other = [f for f in r["findings"] if f["known"] != ent["id"] and f["known"] is None]
             if ent.get("status") == "known":
@@ -373,7 +377,7 @@ def main():
             if pid not in h.get("properties", [pid]):
                 continue
             ncorpus += 1
-            r = run_history(pid, h["history"], h.get("meta", {}))
+            r = run_history(pid, h["history"], dict(h.get("meta", {}), tier="thorough"))
             bad = [f for f in r["findings"] if f["known"] is None]
             if bad or r["diff"]:
                 path = write_replay(pid, "corpus-" + fn[:-5], {"history": h["history"], "meta": h.get("meta", {}),
